@@ -105,6 +105,17 @@ def _quote_if_required(text: str) -> str:
     return text
 
 
+def _export_block(f: TextIO, block: Keyvalues, indent: str) -> None:
+    """Write a sub-block. Materials are parsed with escapes disabled, so nothing may be escaped."""
+    if block.has_children():
+        f.write(f'{indent}"{block.real_name}"\n{indent}\t{{\n')
+        for child in block:
+            _export_block(f, child, indent + '\t')
+        f.write(f'{indent}\t}}\n')
+    else:
+        f.write(f'{indent}"{block.real_name}" "{block.value}"\n')
+
+
 class Material(MutableMapping[str, str]):
     """Represents a material.
 
@@ -297,11 +308,11 @@ class Material(MutableMapping[str, str]):
             value = _quote_if_required(param.value)
             f.write(f'\t{name} {value}\n')
         for block in self.blocks:
-            block.serialise(f, start_indent='\t')
+            _export_block(f, block, '\t')
         if self.proxies:
             f.write('\n\tProxies\n\t\t{\n')
             for block in self.proxies:
-                block.serialise(f, start_indent='\t\t')
+                _export_block(f, block, '\t\t')
             f.write('\t\t}\n')
         f.write('\t}\n')
 
